@@ -339,7 +339,12 @@ func (cs *caseState) checkRequest(st *reqState) (fs []finding, inconclusive stri
 	// propagates through it, the scope is closed by fasthttp's release of the request context -
 	// the scope is an io.Closer user value - i.e. still when the request ends, but after the
 	// outer middlewares unwound. That path is judged by the end-of-request clause below only.)
-	if len(ob.unwindOpen) > 0 && !(fw == FWFiber && ob.propagated) {
+	// (A request whose context was cancelled under it - Exit abort - is closed by the scope's
+	// context watcher; the middleware's own Close finds the scope being closed and returns nil
+	// without waiting for the watcher, as a repeated Close may. The instances are then closed a
+	// moment after the unwinding: that exit is judged by the end-of-request clause below, which
+	// waits for the disposal, and by exactly-once.)
+	if len(ob.unwindOpen) > 0 && !(fw == FWFiber && ob.propagated) && p.Exit != ExitAbort {
 		add("scope-open-when-request-ended", p.Exit, "when the request left the scope middleware (deferred function of the outer middleware): %v", ob.unwindOpen)
 	}
 
